@@ -294,6 +294,13 @@ func (mpt *MerklePatriciaTrie) SaveChanges(ctx context.Context, ndb NodeDB, incl
 			zap.Error(err))
 		return err
 	case <-doneC:
+		// the goroutine reports its error before it closes doneC, so both channels
+		// can be ready at once and select may have picked this one
+		select {
+		case err := <-errC:
+			return err
+		default:
+		}
 	}
 	return nil
 }
